@@ -11,6 +11,7 @@
    Every length bound [< 2^64] holds for any Go slice. *)
 From Coq Require Import List NArith ZArith Bool Lia.
 From PB Require Import Base.PBytes Wire.WireModel Msg.MsetModel Msg.MsetWireP Msg.MsetP Msg.MsetSetP.
+From PB Require Import Base.GoInt Wire.WireGoBaseP Gen.WireGo Msg.MsetGoRt Gen.MsetGo Msg.MsetGoP.
 Import ListNotations.
 Open Scope N_scope.
 
@@ -180,3 +181,71 @@ Theorem C47_mset_model_total :
   /\ decode_fast kn pok bs s <> MErr MImpossible.
 Proof. exact decode_no_fuel. Qed.
 Print Assumptions C47_mset_model_total.
+
+(* ================================================================== *)
+(* Tier T: the same statements about the Go source itself.  Gen/MsetGo.v is
+   regenerated from internal/encoding/messageset/messageset.go on every run
+   (extractor srcmodel_mset); its calls of protowire.* are the translated
+   wire.go functions of Gen/WireGo.v.  [zbytes] is the byte string as the
+   translated code sees it; [bn] says whether the argument slice is nil. *)
+Open Scope Z_scope.
+
+(* ConsumeFieldValue as written in messageset.go computes consume_item of the
+   model on every input (error values by class: go_ParseError of the wire code,
+   the errors.New text for an invalid type_id) *)
+Theorem C47_go_ConsumeFieldValue_eq_model :
+  forall bs bn wl,
+  Z.of_nat (length bs) < 2^63 -> (bn = true -> bs = []) ->
+  MsetGo.go_ConsumeFieldValue (zbytes bs) bn wl = zres_item (Z.of_nat (length bs)) (consume_item wl bs).
+Proof. exact go_ConsumeFieldValue_eq_model. Qed.
+Print Assumptions C47_go_ConsumeFieldValue_eq_model.
+Example C47_go_ConsumeFieldValue_eq_model_nonvacuous :
+  Z.of_nat (length [x10; x01; x0c]) < 2^63 /\ (false = true -> [x10; x01; x0c] = []).
+Proof. split; [now vm_compute|discriminate]. Qed.
+
+(* ... and neither indexes out of range (message[nn:], b[:n:n], b[n:]) nor runs out of loop fuel *)
+Theorem C47_go_ConsumeFieldValue_total :
+  forall bs bn wl,
+  Z.of_nat (length bs) < 2^63 -> (bn = true -> bs = []) ->
+  exists v, MsetGo.go_ConsumeFieldValue (zbytes bs) bn wl = Val v.
+Proof. exact go_ConsumeFieldValue_total. Qed.
+Print Assumptions C47_go_ConsumeFieldValue_total.
+
+(* the translated AppendFieldStart / message subfield / AppendFieldEnd, read back
+   by the translated ConsumeTag + ConsumeFieldValue, give the type id and the
+   message (with its length prefix when wantLen), in either order of the two subfields *)
+Theorem C47_go_item_roundtrip :
+  forall (wl : bool) (id : N) (p rest : list byte),
+  valid_id id -> Z.of_nat (length (append_item id p ++ rest)) < 2^63 ->
+  let msg := zbytes (if wl then enc_bytes p else p) in
+  exists body,
+    go_write_item id p = zbytes (enc_tag 1 3)%N ++ zbytes body /\
+    WireGo.go_ConsumeTag (go_write_item id p ++ zbytes rest) = Val (1, 3, Z.of_nat (length (enc_tag 1 3)%N)) /\
+    MsetGo.go_ConsumeFieldValue (zbytes body ++ zbytes rest) false wl
+      = Val (Z.of_N id, msg, Z.of_nat (length body), GoNil) /\
+    exists n,
+    MsetGo.go_ConsumeFieldValue
+      (zbytes (enc_tag 3 2 ++ enc_bytes p ++ enc_tag 2 0 ++ enc_varint id ++ enc_tag 1 4)%N ++ zbytes rest) false wl
+      = Val (Z.of_N id, msg, n, GoNil).
+Proof. exact go_item_roundtrip. Qed.
+Print Assumptions C47_go_item_roundtrip.
+Example C47_go_item_roundtrip_nonvacuous :
+  valid_id 1000 /\ Z.of_nat (length (append_item 1000 [x08; x01] ++ [xff])) < 2^63.
+Proof. split; [unfold valid_id, max_int32; lia|now vm_compute]. Qed.
+
+(* SizeField(id) + SizeTag(3) + SizeBytes(len p), all as translated, is the
+   number of bytes the translated writers produce *)
+Theorem C47_go_size_eq_length :
+  forall id p,
+  valid_id id -> (N.of_nat (length p) < 2^62)%N ->
+  go_SizeField (Z.of_N id) + WireGo.go_SizeTag 3 + WireGo.go_SizeBytes (len (zbytes p)) = len (go_write_item id p).
+Proof. exact go_size_eq_length. Qed.
+Print Assumptions C47_go_size_eq_length.
+
+Theorem C47_go_writers_eq_model :
+  (forall num, (num <= 2147483647)%N -> go_SizeField (Z.of_N num) = Z.of_N (size_field num)) /\
+  (forall b num, (num <= 2147483647)%N ->
+     go_AppendFieldStart (zbytes b) (Z.of_N num) = zbytes (b ++ append_field_start num)) /\
+  (forall b, go_AppendFieldEnd (zbytes b) = zbytes (b ++ append_field_end)).
+Proof. exact (conj go_SizeField_spec (conj go_AppendFieldStart_spec go_AppendFieldEnd_spec)). Qed.
+Print Assumptions C47_go_writers_eq_model.
